@@ -29,6 +29,7 @@ from . import core
 from . import c06_monitor as M
 
 SPEC = core.SPEC / "features"
+_TIER = "quick"
 BASES = {"quick": ["pheno", "mox2"], "thorough": ["pheno", "mox2", "pheno+fo+p1", "mox2+joint+comb"]}
 
 
@@ -122,6 +123,11 @@ def make_recipes(tier: str, seed: int, infos: dict):
         for i in range(4):
             add(f"@cs{i}", [{"op": "@cs", "i": i}])
             add(f"P+,@cs{i}", [T["P+"], {"op": "@cs", "i": i}])
+        for order in ("BI", "IB", "RBI", "IRB"):
+            # a dosing compartment with several doses, stored in different orders (Bolus / Infusion(duration) / Infusion(rate))
+            add(f"@doses{order}", [{"op": "@doses", "order": order}])
+        add("P+,@dosesBI", [T["P+"], {"op": "@doses", "order": "BI"}])
+        add("P+,@dosesIB", [T["P+"], {"op": "@doses", "order": "IB"}])
         for op in DATA_OPS:
             add(op, [{"op": op}])
         for op in TRIP_OPS:
@@ -170,6 +176,22 @@ def apply_step(m, st, key=None):
     if op == "@cs":
         cs = m.statements.ode_system
         new = _permuted_system(cs, st["i"])
+        sts = Statements(tuple(m.statements.before_odes) + (new,) + tuple(m.statements.after_odes))
+        return m.replace(statements=sts)
+    if op == "@doses":
+        from pharmpy.model import Bolus, CompartmentalSystem, CompartmentalSystemBuilder, Infusion
+
+        kinds = {"B": Bolus.create("AMT", admid=1), "I": Infusion.create("AMT", admid=2, duration="D1"),
+                 "R": Infusion.create("AMT", admid=3, rate="R1")}
+        doses = tuple(kinds[c] for c in st["order"])
+        cs = m.statements.ode_system
+        cb = CompartmentalSystemBuilder(cs)
+        comp = cs.dosing_compartments[0]
+        for d in comp.doses:
+            comp = cb.remove_dose(comp, d.admid) or cb.find_compartment(comp.name)
+        comp = cb.find_compartment(comp.name)
+        cb.add_dose(comp, doses)
+        new = CompartmentalSystem(cb, t=cs.t)
         sts = Statements(tuple(m.statements.before_odes) + (new,) + tuple(m.statements.after_odes))
         return m.replace(statements=sts)
     if op == "@dict":
@@ -631,10 +653,47 @@ def _explore(tier: str, box: dict):
         box["err"] = e
 
 
+N_REPLICATES = {"quick": 60, "thorough": 300}
+
+
+def replicate_dataset(df, dv: str, i: int):
+    """Replicate i of a resampling-like sequence: same shape, one DV value unique for the replicate."""
+    new = df.copy()
+    new.iloc[1 + i % 5, list(new.columns).index(dv)] = 1000.0 + i
+    return new
+
+
+def replicate_keys(base, n: int, keep_alive: bool):
+    """What a resampling tool does: create a dataset, attach it, take the key, drop the candidate, next.  With
+    keep_alive the candidates are kept (no object is ever re-created at the address of a dropped one)."""
+    import gc
+
+    from pharmpy.workflows.hashing import DatasetHash, ModelHash
+
+    dv = base.datainfo.dv_column.name
+    out, alive = [], []
+    order = range(n) if not keep_alive else reversed(range(n))
+    for i in order:
+        df = replicate_dataset(base.dataset, dv, i)
+        m = base.replace(dataset=df)
+        try:
+            k, dk = str(ModelHash(m)), str(DatasetHash(df))
+        except Exception as e:
+            k = dk = "raised:" + type(e).__name__
+        out.append((i, k, dk, M.digest_df(df)))
+        if keep_alive:
+            alive.append((df, m))
+        else:
+            del df, m
+            gc.collect()
+    return out
+
+
 def _children(pickles, hists, rebuild, d: Path):
     """One fresh interpreter per hash seed; returns {proc: result dict}."""
     inp = d / "in.pickle"
-    inp.write_bytes(pickle.dumps({"models": pickles, "hists": hists, "recipes": rebuild}))
+    inp.write_bytes(pickle.dumps({"models": pickles, "hists": hists, "recipes": rebuild, "replicates": N_REPLICATES[_TIER],
+                                  "replicate_base": hists.index(BASES[_TIER][0] + ":")}))
     procs = {}
     for seed in ("0", "1", "random"):
         env = dict(os.environ)
@@ -679,6 +738,8 @@ def _validate(events, v: core.Verdict):
 
 
 def main(tier: str, seed: int) -> int:
+    global _TIER
+    _TIER = tier
     v = core.Verdict("C12", tier, seed)
     v.assumptions = [
         "content classes are assigned with pharmpy's own == on models and components plus equality of the dataset (values, dtypes, columns, index): "
@@ -743,6 +804,24 @@ def main(tier: str, seed: int) -> int:
         lab = label_of(m, labels)
         owner[(h, lab)] = (m, sig[len(models) + j])
         events.append(dict(sig[len(models) + j], ev="key", hist=h, label=lab, proc=proc, seed=sd, k=key))
+    # one model, many datasets, in sequence (what a resampling tool does): in this process with the candidates dropped,
+    # in the fresh interpreters with the candidates kept alive
+    base0 = models[hists.index(BASES[tier][0] + ":")]
+    sig0 = sig[hists.index(BASES[tier][0] + ":")]
+    lab0 = label_of(base0, labels)
+    seqs = [("parent-seq", "0", replicate_keys(base0, N_REPLICATES[tier], keep_alive=False))]
+    seqs += [(f"child-{sd}", sd, k["replicates"]) for sd, k in kids.items()]
+    ddig: dict = {}
+    nseq = 0
+    for proc, sd, reps in seqs:
+        for i, k, dk, dg in reps:
+            cls = ddig.setdefault(dg, 100000 + len(ddig))
+            events.append(dict(sig0, m=cls, d=cls, ev="key", hist=f"{BASES[tier][0]}:@replicate{i}", label=lab0, proc=proc, seed=sd, k=k))
+            events.append(dict(sig0, m=cls + 500000, p=0, r=0, s=0, e=0, d=cls, ev="key", hist=f"{BASES[tier][0]}:@replicate{i}/DatasetHash",
+                               label=lab0, proc=proc, seed=sd, k="ds:" + dk))
+            nseq += 2
+    if len(ddig) != N_REPLICATES[tier]:
+        raise core.MachineryError(f"replicate datasets: {len(ddig)} distinct digests for {N_REPLICATES[tier]} replicates")
     rng.shuffle(events)
     nkey = len(events)
     rts = []
@@ -825,7 +904,7 @@ def main(tier: str, seed: int) -> int:
         evaluations=nkey,
         distinct_nontrivial=len(by_m),
         traces_validated_against_impl=len(events),
-        key_events=nkey, roundtrip_events=len(rts),
+        key_events=nkey, replicate_sequence_events=nseq, roundtrip_events=len(rts),
         roundtrip_by_via={via: sum(1 for e in rts if e["via"] == via) for via in ("dict", "json", "code", "pickle", "results")},
         histories_built=len(ok), histories_failed=len(failed), histories_failed_samples=[f"{b['hist']}: {b['err']}" for b in failed[:5]],
         trips_not_judged_as_keys=sum(1 for j in judged if not j),
